@@ -318,26 +318,26 @@ example : Mini.iface.Law := Mini.law
 
 /-- ... and by the FULL object model `ObjRecv` of agent orecv, plugged into the receiver through the
     adapter `RecvFull.lean` (the driver runs this instantiation next to `Mini` on every op) -/
-example : Full.iface.Law := Full.law
+example (P : ObjRecv.Params) : (Full.iface P).Law := Full.law P
 
 /-- `expired_only_is_silent` for the receiver model instantiated with the full object model
-    `ObjRecv` (No-Code exactly, other codecs / content encodings as `ObjRecv`'s parameters), without
+    `ObjRecv`, for EVERY parameter set `P` of it (any codec, decompressor, writer environment), without
     any contract hypothesis: writer ⇒ attach ⇒ unexpired instance is closed for the real object model -/
-theorem expired_only_is_silent_full_object_model (cfg : Config) (ops : List Op)
-    (tr : List (Op × State Full.Any × Res × List Ev))
-    (hrun : runT Full.iface (State.init cfg) ops = some tr) (toi : Nat)
+theorem expired_only_is_silent_full_object_model (P : ObjRecv.Params) (cfg : Config) (ops : List Op)
+    (tr : List (Op × State (Full.Any P) × Res × List Ev))
+    (hrun : runT (Full.iface P) (State.init cfg) ops = some tr) (toi : Nat)
     (hexp : ∀ e ∈ tr, ∀ f ∈ e.2.1.fdtCurrent, f.Usable e.1.now →
       ∀ inst, f.inst = some inst → inst.getFile toi = none) :
     ∀ e ∈ tr, (∀ w, Ev.w toi w ∉ e.2.2.2) ∧ (∀ id, Ev.attach toi id ∉ e.2.2.2) :=
-  expired_only_is_silent Full.iface Full.law cfg ops tr hrun toi hexp
+  expired_only_is_silent (Full.iface P) (Full.law P) cfg ops tr hrun toi hexp
 
 /-- `writer_call_needs_attach` for the full object model -/
-theorem writer_call_needs_attach_full_object_model (cfg : Config) (ops : List Op)
-    (tr : List (Op × State Full.Any × Res × List Ev))
-    (hrun : runT Full.iface (State.init cfg) ops = some tr)
+theorem writer_call_needs_attach_full_object_model (P : ObjRecv.Params) (cfg : Config) (ops : List Op)
+    (tr : List (Op × State (Full.Any P) × Res × List Ev))
+    (hrun : runT (Full.iface P) (State.init cfg) ops = some tr)
     (toi : Nat) (hna : ∀ e ∈ tr, ∀ id, Ev.attach toi id ∉ e.2.2.2) :
     ∀ e ∈ tr, ∀ w, Ev.w toi w ∉ e.2.2.2 :=
-  writer_call_needs_attach Full.iface Full.law cfg ops tr hrun toi hna
+  writer_call_needs_attach (Full.iface P) (Full.law P) cfg ops tr hrun toi hna
 
 /-- `expired_only_is_silent` for the validated executable model, without any contract hypothesis -/
 theorem expired_only_is_silent_driver_model (cfg : Config) (ops : List Op)
